@@ -1339,11 +1339,83 @@ func runB7(p *an.Prog, r *an.Result) {
 		return
 	}
 	cl := funcValue(def.Call.Value)
+	// the saved values kept in a record whose method restores them (defer saved.restore(ctx)): a field of the
+	// receiver stands for what the loop function stored into that field of the record before the defer
+	recordField := func(v ssa.Value) ssa.Value {
+		if cl.Signature.Recv() == nil || len(cl.Params) == 0 || len(def.Call.Args) == 0 {
+			return nil
+		}
+		isRecv := func(x ssa.Value) bool {
+			if x == ssa.Value(cl.Params[0]) {
+				return true
+			}
+			if al, ok := x.(*ssa.Alloc); ok {
+				st := an.Stores(al)
+				return len(st) == 1 && st[0] == ssa.Value(cl.Params[0])
+			}
+			return false
+		}
+		field := -1
+		switch x := an.Strip(v).(type) {
+		case *ssa.Field:
+			if isRecv(x.X) {
+				field = x.Field
+			}
+		case *ssa.UnOp:
+			if fa, ok := x.X.(*ssa.FieldAddr); ok && isRecv(fa.X) {
+				field = fa.Field
+			}
+		}
+		if field < 0 {
+			return nil
+		}
+		// the record at the defer: a load of a local of the loop function (or the local's address)
+		var rec *ssa.Alloc
+		switch a := def.Call.Args[0].(type) {
+		case *ssa.UnOp:
+			rec, _ = a.X.(*ssa.Alloc)
+		case *ssa.Alloc:
+			rec = a
+		}
+		if rec == nil || rec.Referrers() == nil {
+			return nil
+		}
+		var stored ssa.Value
+		n := 0
+		for _, u := range *rec.Referrers() {
+			if fa, ok := u.(*ssa.FieldAddr); ok && fa.Field == field && fa.Referrers() != nil {
+				for _, uu := range *fa.Referrers() {
+					if st, ok := uu.(*ssa.Store); ok && st.Addr == ssa.Value(fa) {
+						stored = st.Val
+						n++
+						if !instrDominates(st, def) {
+							n += 100 // written after the defer was registered: not a saved value
+						}
+					}
+				}
+			}
+		}
+		if n != 1 {
+			return nil
+		}
+		return stored
+	}
 	// restores: key -> the saved value's key (through the defer arguments)
 	restores := map[string]string{}
 	for _, s := range callsNamed(cl, "(render.Context).Set") {
 		k := keyDesc(p, s.Call.Args[0])
+		if kv := recordField(s.Call.Args[0]); kv != nil {
+			k = keyDesc(p, kv)
+		}
 		val := an.Strip(s.Call.Args[1])
+		if sv := recordField(s.Call.Args[1]); sv != nil {
+			if c := an.CallOf(an.Strip(sv)); c != nil && an.CallName(c) == "(render.Context).Get" {
+				restores[k] = keyDesc(p, c.Args[0])
+			} else {
+				restores[k] = "?not ctx.Get"
+			}
+			continue
+		}
 		par, ok := val.(*ssa.Parameter)
 		if !ok {
 			// a local of the loop function captured by the deferred closure: what was stored into it,
